@@ -765,12 +765,13 @@ class DAG(BaseDAG[P, RVDAG]):
                     to_subdag_id(id_): UsageExecNode(to_subdag_id(uxn.id), uxn.key)
                     for id_, uxn in exec_node.kwargs.items()
                 }
-                if not exec_node.setup:
-                    if exec_node.active is not None:
-                        values["active"] = UsageExecNode(
-                            to_subdag_id(exec_node.active.id), exec_node.active.key
-                        )
+                # the node's own activation reference is re-keyed like its args and kwargs (setup nodes included)
+                if exec_node.active is not None:
+                    values["active"] = UsageExecNode(
+                        to_subdag_id(exec_node.active.id), exec_node.active.key
+                    )
 
+                if not exec_node.setup:
                     if has_active:
                         if exec_node.active is not None:
                             raise RuntimeError(
